@@ -19,6 +19,11 @@ CHECKS = {
   text="Generated-input search: comment blocks are drawn as ASTs (annotation name/value/JSON5 property tree/description, free text, near-miss lines, malformed JSON5), printed by an independent JSON5 printer, embedded in a real Go file and parsed back through go/parser, gast.MapDocListToCommentBlock and annotations.NewAnnotationHolder; the AST is the oracle for attributes, order, free text, entity description, error on malformed JSON5 and the value/properties ranges. Sampling.",
   note="Trusts: rapid, go/parser, the harness's JSON5 printer and number semantics; generator preconditions listed in the evidence assumptions (no blank before the separator comma, near-misses limited to unambiguous non-forms); one known finding (F-C16-1) excluded by construction and replayed as witness.",
   ref="6/C16"),
+ "C14": dict(
+  technique="property-based testing (rapid) of emitters and annotation helpers with arbitrary validator strings/type names/property bags; real CLI runs over generated hostile projects and configs; native fuzzing in the thorough tier",
+  text="Generated-input search at two levels. Unit: arbitrary validator rule lists, type names and JSON5 property bags are pushed through the real swagen.GenerateSpec (3.0 and 3.1) and the annotation/security helpers; the call must return bytes or an error, never panic. Process: generated projects decorated with unsupported constructs, malformed annotations and configs are run through the real CLI binary under a time limit; outcome must be exit 0 with artefacts or non-zero with a message, never a Go panic. Sampling; hangs are only observable as time-outs (reported inconclusive).",
+  note="Trusts: rapid; intermediate metadata fabricated for the unit level is restricted to shapes the validators let through; a timeout is reported as inconclusive, not as a violation.",
+  ref="6/C14"),
 }
 
 NOT_APPLICABLE = []
